@@ -55,6 +55,13 @@ class DocMixin:
         if self.template:
             return self.doc_from_template(v)
         cells = [v[f"c{i}"] for i in range(len(self.holes))]
+        if self.p.get("alphabet"):
+            for c in cells:
+                if not docs.in_alphabet(c, self.p["alphabet"]):
+                    return None
+            # tiny alphabet: let the solver enumerate it now (cheaper than carrying the cells
+            # through CrossHair's Unicode tables; same policy as DESIGN 2.7)
+            cells = [env.realize(c) for c in cells]
         for c in cells:
             if not valid_cell(c, allow_cr=self.allow_cr):
                 return None
@@ -62,13 +69,6 @@ class DocMixin:
             for c in cells:
                 if not docs.in_finite(c):
                     return None
-            cells = [env.realize(c) for c in cells]
-        if self.p.get("alphabet"):
-            for c in cells:
-                if not docs.in_alphabet(c, self.p["alphabet"]):
-                    return None
-            # tiny alphabet: let the solver enumerate it now (cheaper than carrying the cells
-            # through CrossHair's Unicode tables; same policy as DESIGN 2.7)
             cells = [env.realize(c) for c in cells]
         for i, k in enumerate(self.p.get("classes") or []):
             if not docs.in_class(cells[i], k):
